@@ -61,6 +61,9 @@ func (c *Cluster) byzForgeStep(s *Step) {
 		}
 	}
 	c.stats.probe("c07-attempt:" + op)
+	if f.decorated {
+		c.stats.probe("c07-attempt-with-valid-membership-payload")
+	}
 	store := victim.core().Hashgraph().Store
 	before := c.digest(victim)
 	knownBefore := store.KnownEvents()
